@@ -82,7 +82,7 @@ func main() {
 		}
 		add(cs, to)
 	} else {
-		nh, shard := cfg.N(20, 300), cfg.N(20, 60)
+		nh, shard := cfg.N(40, 480), cfg.N(40, 60)
 		// the slow (fsync-bound) configurations first
 		cfgs := allConfigs()
 		for _, slow := range []bool{true, false} {
@@ -98,7 +98,7 @@ func main() {
 		add(childSpec{Mode: "iter", Build: "plain", Rounds: cfg.N(400, 4000)}, to)
 		for _, c := range []cfgSpec{{Backend: "bbolt", Shadow: true, Cache: "none"}, {Backend: "bbolt", Shadow: false, Cache: "none"},
 			{Backend: "bbolt", Shadow: false, Cache: "read", CacheSize: 64}, {Backend: "hashmap", Shadow: true, Cache: "none"}, {Backend: "hashmap", Shadow: false, Cache: "none"}} {
-			add(childSpec{Mode: "big", Cfg: c, Big: cfg.N(2600, 5200), Build: "plain"}, to)
+			add(childSpec{Mode: "big", Cfg: c, NHist: 1, Big: cfg.N(2600, 5200), Build: "plain"}, to)
 		}
 		if cfg.BinRace != "" {
 			add(childSpec{Mode: "iter", Build: "race", Rounds: cfg.N(200, 2000)}, to)
@@ -208,7 +208,7 @@ func replaySpec(path string) (childSpec, error) {
 		Detail struct {
 			Mode    string    `json:"mode"`
 			Cfg     cfgSpec   `json:"cfg"`
-			History *history  `json:"history"`
+			History string    `json:"history_json"`
 			Build   string    `json:"build"`
 			Child   childSpec `json:"child_spec"`
 		} `json:"detail"`
@@ -224,8 +224,12 @@ func replaySpec(path string) (childSpec, error) {
 	switch {
 	case d.Mode == "iter":
 		return childSpec{Mode: "iter", Build: "plain", Rounds: 200}, nil
-	case d.History != nil:
-		return childSpec{Mode: "hist", Cfg: d.Cfg, NHist: 1, Build: "plain", Replay: d.History}, nil
+	case d.History != "":
+		var h history
+		if err := json.Unmarshal([]byte(d.History), &h); err != nil {
+			return childSpec{}, err
+		}
+		return childSpec{Mode: "hist", Cfg: d.Cfg, NHist: 1, Build: "plain", Replay: &h}, nil
 	case d.Child.Mode != "":
 		c := d.Child
 		c.Build = "plain"
@@ -295,7 +299,7 @@ func runHistory(cs childSpec, b *vlib.Batch, h *history, n int) bool {
 		b.Inconclusive("%s: register: %v", cfg.label(), err)
 		return false
 	}
-	opts := &database.Options{Local: true, Internal: true}
+	opts := &database.Options{Local: h.Priv != "none", Internal: h.Priv != "none"}
 	if cfg.Cache != "none" {
 		opts.CacheSize = cfg.CacheSize
 		if opts.CacheSize == 0 {
@@ -331,6 +335,9 @@ func runHistory(cs childSpec, b *vlib.Batch, h *history, n int) bool {
 	}
 	b.Eval(1)
 	b.Count("histories/"+cfg.Backend, 1)
+	if h.Priv == "none" {
+		b.Count("histories_unprivileged_interface", 1)
+	}
 	b.Count("compared_results", int64(w.compared))
 	if w.compared >= 10 && w.found > 0 {
 		hb, _ := json.Marshal(h)
